@@ -249,10 +249,12 @@ class NDNApp:
         try:
             data_name, meta_info, content, sig, raw_packet = await aio.wait_for(future, timeout=lifetime/1000.0)
         except TimeoutError:
-            if node.timeout(future):
+            if node.timeout(future) and self._int_tree.get(node_name) is node:
                 del self._int_tree[node_name]
             raise InterestTimeout()
         except aio.CancelledError:
+            if node.timeout(future) and self._int_tree.get(node_name) is node:
+                del self._int_tree[node_name]
             raise InterestCanceled()
         if validator is None:
             validator = self.data_validator
